@@ -211,11 +211,15 @@ def iterNew (db : DB) (pre : ByteArray) (rev : Bool) : Iter :=
 
 def Iter.rewind (it : Iter) : Iter := Iter.skip { it with cur := 0 }
 def Iter.next (it : Iter) : Iter := if it.cur < it.items.length then Iter.skip { it with cur := it.cur + 1 } else it
-/-- forward seek: first item at or after the cursor's snapshot order with key ≥ k (≤ k reversed) -/
+/-- `Seek` never moves backwards: nothing on an exhausted iterator, nothing when `k` lies before the
+    current key in iteration order; otherwise the first item of the snapshot with key ≥ k (≤ k reversed) -/
 def Iter.seek (it : Iter) (k : ByteArray) : Iter :=
-  if it.cur < it.items.length then
-    let n := (it.items.takeWhile (fun x => if it.rev then keyLt k x.1 else keyLt x.1 k)).length
-    Iter.skip { it with cur := n }
-  else it
+  match it.items[it.cur]? with
+  | none => it
+  | some c =>
+    if (if it.rev then keyLt c.1 k else keyLt k c.1) then it
+    else
+      let n := (it.items.takeWhile (fun x => if it.rev then keyLt k x.1 else keyLt x.1 k)).length
+      Iter.skip { it with cur := n }
 
 end XixiKV.Engine
